@@ -127,13 +127,15 @@ fn make_program(kind: &str, seed: u64, p: u64) -> (Vec<u8>, String) {
     // small images make bank numbers wrap (a multiple of the bank count maps
     // bank 0 into the switchable window: bank 0 carries routines at the entry
     // offsets too); large ones exercise MBC1's upper bits and mode
-    let (ct, rc) = match p % 6 {
+    let (ct, rc) = match p % 8 {
       0 => (0x01u8, 0x02u8), // MBC1, 8 banks
       1 => (0x13, 0x04),     // MBC3, 32 banks
       2 => (0x03, 0x06),     // MBC1, 128 banks (upper bits, mode)
       3 => (0x11, 0x06),     // MBC3, 128 banks
       4 => (0x01, 0x52),     // MBC1, 72 banks: bank numbers reduce modulo a non-power-of-two
-      _ => (0x13, 0x54),     // MBC3, 96 banks
+      5 => (0x13, 0x54),     // MBC3, 96 banks
+      6 => (0x01, 0x00),     // MBC1 on a two-bank image: even bank numbers map bank 0 into the window
+      _ => (0x11, 0x01),     // MBC3, 4 banks
     };
     bank_program(seed, p, ct, rc)
   } else {
